@@ -700,7 +700,7 @@ _LOCALS = {}
 
 def _locals(fi):
     k = id(fi.node)
-    if k not in _LOCALS:
+    if k not in _LOCALS or _LOCALS[k][0] is not fi.node:
         names = set()
         a = fi.node.args
         for p in a.posonlyargs + a.args + a.kwonlyargs:
@@ -712,5 +712,5 @@ def _locals(fi):
         for n in ast.walk(fi.node):
             if isinstance(n, ast.Name) and isinstance(n.ctx, ast.Store):
                 names.add(n.id)
-        _LOCALS[k] = names
-    return _LOCALS[k]
+        _LOCALS[k] = (fi.node, names)
+    return _LOCALS[k][1]
